@@ -8,11 +8,12 @@ _is_transient_response is reduced to a truth table over its atoms and compared w
 """
 from __future__ import annotations
 
+import ast
 import itertools
 from typing import Any, Dict, List
 
 from ..absint import ClassRef as ClassRef_, App, ExcVal, FuncRef, Hooks, Interp, ModRef, Obj, Raised, Sym, vrepr
-from ..model import AnalysisError, Repo
+from ..model import AnalysisError, Repo, dotted
 from ..report import Check
 
 NODE = 'pytezos.rpc.node'
@@ -72,6 +73,21 @@ def run(repo: Repo, chk: Check) -> None:
     )
     fi = repo.func(f'{NODE}.RpcNode.request')
     consts = {n: repo.const(f'{NODE}.{n}') for n in ('TRANSIENT_RETRY_ATTEMPTS', 'TRANSIENT_RETRY_INITIAL_DELAY', 'TRANSIENT_RETRY_MAX_DELAY')}
+    # the three constants are what the loop reads at call time: nothing else in the package may rebind them (`module.NAME = ...` from another
+    # module changes the attempt limit / delays for the whole process)
+    foreign = []
+    for mi2 in repo.modules.values():
+        for n in ast.walk(mi2.tree):
+            tgs = n.targets if isinstance(n, ast.Assign) else [n.target] if isinstance(n, (ast.AugAssign, ast.AnnAssign)) else []
+            for t in tgs:
+                if isinstance(t, ast.Attribute) and t.attr in consts:
+                    q = repo.resolve_name(mi2, dotted(t.value) or '?')
+                    if q == NODE:
+                        foreign.append(f'{mi2.relpath}:{n.lineno} {t.attr}')
+            if isinstance(n, ast.Call) and dotted(n.func) == 'setattr' and len(n.args) >= 2 and isinstance(n.args[1], ast.Constant) and n.args[1].value in consts:
+                foreign.append(f'{mi2.relpath}:{n.lineno} setattr {n.args[1].value}')
+    chk.ob('R-FLOW', NODE, not foreign, 'the retry constants are rebound nowhere in the package', None, {'writers': foreign},
+           what=f'{foreign[:2]} rebind the retry constants of pytezos.rpc.node at import time: once that module is loaded the loop makes another number of attempts / other delays than the table says')
     chk.set_clause('C26.1')
     chk.ob('R-GUARD', f'{NODE}.TRANSIENT_RETRY_ATTEMPTS', consts['TRANSIENT_RETRY_ATTEMPTS'] == 6, 'attempts == 6', fi.module.relpath,
            consts, what='at most six attempts are specified')
